@@ -235,6 +235,30 @@ fn datagrams(family: &str, chunk: usize, state: &str, tier: Tier) -> Vec<(String
             if msg.len() < 10 {
                 return v;
             }
+            // datagrams that fill the receive buffer (65435 bytes behind its headroom) almost or exactly: a valid key hint, one huge
+            // unknown part (or a huge payload / key part), the end marker and a signature length whose bytes would lie behind
+            // the end of the buffer
+            for total in [65435usize, 65434, 65400, 65372, 65371, 65370, 65300, 65181, 65180] {
+                for tag in [9u8, 5, 3] {
+                    for siglen in [64u8, 255, 1] {
+                        for tail in [0usize, 1, 63, 64] {
+                            if 13 + tail + 2 > total {
+                                continue;
+                            }
+                            let body = total - 9 - 3 - 2 - tail;
+                            let mut d = msg[..9].to_vec();
+                            d.push(tag);
+                            d.push((body >> 8) as u8);
+                            d.push(body as u8);
+                            d.extend((0..body).map(|i| (i % 253) as u8));
+                            d.push(0);
+                            d.push(siglen);
+                            d.extend(std::iter::repeat(0x33u8).take(tail));
+                            v.push((format!("buffer-filling total={} tag={} siglen={} tail={}", total, tag, siglen, tail), d));
+                        }
+                    }
+                }
+            }
             let lens: &[usize] = &[0, 1, 2, 19, 20, 21, 32, 33, 96, 97, 255, 256, 65535];
             // part positions
             let mut positions = vec![];
